@@ -139,9 +139,10 @@ fn serial_orders(steps: usize) {
 /// runtime of the slot did not finish in 15 min in the std build (five boxed `dyn` components, downcasts, erased
 /// event). They are kept for documentation. Concrete serial scenarios (the symbolic step sequence does not finish:
 /// five boxed `dyn` components, downcasts and the erased runtime; it is kept for the thorough tier).
+/// (registered since CBMC runs this one with --max-field-sensitivity-array-size 1024, see group_hk_emit_std.py: 12 s)
 #[kani::proof]
 #[kani::unwind(6)]
-pub fn c20_x_inert_before_init() {
+pub fn c20_q_inert_before_init() {
     reset();
     let slot = AmbientSlot::new();
     observe(&slot, 0);
